@@ -342,7 +342,7 @@ Record sobs := mkSObs {
    numbers are the growth during the round *)
 Record pobs := mkPObs {
   po_lids : N;     (* new LIDs = IDs accepted for indexing, all deliveries together *)
-  po_duplids : N;  (* IDs of the round holding more than one LID *)
+  po_duplids : N;  (* IDs of the round holding more than one LID + new LIDs holding an ID no delivery carried *)
   po_pos : N;      (* new entries of DocsPositions *)
   po_total : N;    (* Info.DocsTotal *)
   po_all : N;      (* LIDs of the all-token *)
